@@ -76,8 +76,29 @@ static int op_f32_of(int argc, char **argv, FILE *out)
         return 0;
 }
 
+/* f32_lenterm <s> : the length-bias term of d_estimation (sequence_distance.c:94-95, 144-145), the C expression verbatim:
+   `int s; float add = MACRO_MIN(10000.0, s) / 10000.0;` (double arithmetic, rounded to float on assignment) */
+#ifndef MACRO_MIN
+#define MACRO_MIN(a,b)          (((a)<(b))?(a):(b))
+#endif
+static int op_f32_lenterm(int argc, char **argv, FILE *out)
+{
+        if(argc != 1) return 1;
+        const char *p = argv[0];
+        size_t l = strlen(p);
+        if(l == 0 || l > 10) return 1;
+        for(const char *q = p; *q; q++){ if(*q < '0' || *q > '9') return 1; }
+        long long v = strtoll(p, NULL, 10);
+        if(v >= 2147483648LL) return 1;
+        volatile int s = (int)v;
+        float add = MACRO_MIN(10000.0, s) / 10000.0;
+        f32_print(out, add);
+        return 0;
+}
+
 struct kv_op kv_ops_f32[] = {
         {"f32", op_f32},
         {"f32_of", op_f32_of},
+        {"f32_lenterm", op_f32_lenterm},
         {NULL, NULL}
 };
